@@ -57,6 +57,16 @@ def check(ck: Checker) -> None:
         why = "?"
         if a_tr is not None and a_fl is not None and move_calls:
             f_is_move = refers_to_call(pub, a_fl, move_calls)
+            # `transferred` may be a local: every value it can hold at the return is either an empty set
+            # (nothing-to-do arm) or `X - failed`
+            from ..an import value_alts
+
+            rn = next((n_ for n_ in gp.nodes.values() if n_.ast is r), None)
+            tr_alts = [a for a in (value_alts(gp, rn, a_tr, depth=2) if rn is not None else [a_tr]) if not isinstance(a, ast.Name)]
+            empties = [a for a in tr_alts if isinstance(a, ast.Call) and call_name(a) == "set" and not a.args]
+            subs = [a for a in tr_alts if a not in empties]
+            if len(subs) == 1 and all(True for _ in empties):
+                a_tr = subs[0]
             tr_ok = isinstance(a_tr, ast.BinOp) and isinstance(a_tr.op, ast.Sub) and norm(a_tr.right) == norm(a_fl)
             moved = get_arg(move_calls[0], move, "obj_ids", pos=2)
             x_ok = tr_ok and moved is not None and norm(a_tr.left) == norm(moved)
@@ -116,6 +126,7 @@ def check(ck: Checker) -> None:
                            f"the failures held in `{t.ast.id}` are never merged into `{m.failed}`",
                            construct=f"{norm(c)} / merged")
 
+    _verify_reported(ck, "C11.onerror")
     check_rest_attempted(ck, m, "C11.nodrop")
     check_oneshot(ck, "C11.nodrop", [f for f in move.module.funcs.values()])
 
@@ -198,3 +209,40 @@ def _check_compare_status(ck: Checker) -> None:
                construct="status(...) x2 / same options")
     roles = {s[0] for s in sig}
     ck.require(roles == {"src", "dest"}, "C11.new", cs, calls[0], "one query per store (src, dest)", f"status() is not called once for src and once for dest: {sorted(map(str, roles))}", construct="status(...) x2 / roles")
+
+
+
+def _verify_reported(ck: Checker, rule: str) -> None:
+    """HashFileDB.add with verify on: an object that the post-copy check rejects (and deletes) did not
+    arrive - the caller must hear about it through on_error, exactly like a failed copy."""
+    prog = ck.prog
+    add = prog.func("hashfile.db", "HashFileDB.add")
+    g = ck.cfg(add)
+    sup = [n for n in g.nodes.values() for c in calls_at(n) if is_method_call(c, "add") and isinstance(c.func.value, ast.Call) and call_name(c.func.value) == "super"]
+    ck.floor(rule, len(sup), 1, "super().add(...) in HashFileDB.add")
+    after = g.reach([d for lab, d in sup[0].succ if lab != "exc"], include_start=True)
+    checks = [n for n in g.nodes.values() if n.id in after for c in calls_at(n) if is_method_call(c, "check") and norm(c.func.value) == "self"]
+    ck.floor(rule, len(checks), 1, "post-copy integrity checks in HashFileDB.add")
+    reports = {n.id for n in g.nodes.values() for c in calls_at(n) if isinstance(c.func, ast.Name) and c.func.id == "on_error"}
+    for n in checks:
+        hs = [g.nodes[d] for lab, d in n.succ if lab == "exc" and g.nodes[d].kind == "handler"]
+        fmt = [h for h in hs if h.ast.type is None or any(t in norm(h.ast.type) for t in ("ObjectFormatError", "Exception", "BaseException"))]
+        if not fmt:
+            ck.ok(rule, add, n, "a failed post-copy check propagates to the caller")
+            continue
+        for h in fmt:
+            def skip(a, lab, b):
+                if lab == "exc":
+                    return True
+                if a.kind != "test":
+                    return False
+                t = norm(a.ast)
+                return (t == "on_error is not None" and lab == "F") or (t == "on_error is None" and lab == "T") or (t == "on_error" and lab == "F")
+
+            stops = set(n.loops[-1:]) | {g.exit}
+            r = g.reach([h.id], skip_node=lambda x: x.id in reports, skip_edge=skip)
+            bad = [s_ for s_ in stops if s_ in r]
+            ck.require(not bad, rule, add, h,
+                       "an object rejected by the post-copy verification is reported through on_error",
+                       "an object rejected (and deleted) by the post-copy verification is silently dropped: the caller reports it as transferred and still sends the directory object that lists it",
+                       witness=g.fmt_path(g.path_to(r, bad[0])) if bad else None, construct=f"{h.text()[:60]} / reports")
